@@ -20,7 +20,8 @@
                      attribute changes, inside subtrees; uequiv adds moving the seed along an edge) *)
 From Coq Require Import ZArith List Bool.
 From DV Require Import Model.PyPrims Model.Tree Gen.BitFns Model.C01Model
-  Proofs.C01Bits Proofs.C01Enc Proofs.C01Bip Proofs.C01Topo Proofs.C01From Proofs.C01Unrooted Proofs.C01Examples.
+  Proofs.C01Bits Proofs.C01Enc Proofs.C01Bip Proofs.C01Topo Proofs.C01From Proofs.C01Unrooted Proofs.C01More
+  Proofs.C01Flags Proofs.C01Recon Proofs.C01Examples Proofs.C01Examples2.
 Import ListNotations.
 Open Scope Z_scope.
 
@@ -231,16 +232,23 @@ Proof. exact encode_structure_l. Qed.
 Print Assumptions encode_structure.
 
 (* Idempotence (structure, flag, masks, encoding list).
-   FULL STATEMENT (fails):  forall acc rooted t,
-        encode acc (r_rooted (encode acc rooted t)) (r_tree (encode acc rooted t)) = encode acc rooted t
-   Proved: it holds for rooted trees and for trees without unifurcations (partial); it fails when a
-   unifurcation hides a basal bifurcation of an unrooted tree (refuted, witness [&U](A,((B,C))));
-   the second call always reaches the fixed point (twice_stable). *)
-Theorem encode_idempotent_partial : forall acc rooted t,
+   The unrestricted statement fails (encode_idempotent_refuted, witness [&U](A,((B,C)))).
+   encode_fixed_point_iff characterises EXACTLY when the first call is already a fixed point: the tree
+   is rooted, or the result's seed is not a bifurcation, or it is one that collapse_basal_bifurcation
+   leaves alone (both children have < 2 children).  encode_idempotent_sufficient: sufficient conditions on
+   the input; encode_twice_stable: the second call always is a fixed point. *)
+Theorem encode_fixed_point_iff : forall acc rooted t,
+  encode acc (r_rooted (encode acc rooted t)) (r_tree (encode acc rooted t)) = encode acc rooted t <->
+  (is_true rooted = true \/ nkids (r_tree (encode acc rooted t)) <> 2 \/
+   snd (collapse_basal (r_tree (encode acc rooted t))) = false).
+Proof. exact encode_fixed_point_iff_l. Qed.
+Print Assumptions encode_fixed_point_iff.
+
+Theorem encode_idempotent_sufficient : forall acc rooted t,
   is_true rooted = true \/ unif_free t = true ->
   encode acc (r_rooted (encode acc rooted t)) (r_tree (encode acc rooted t)) = encode acc rooted t.
 Proof. exact encode_idempotent_partial_l. Qed.
-Print Assumptions encode_idempotent_partial.
+Print Assumptions encode_idempotent_sufficient.
 
 Theorem encode_idempotent_refuted :
   exists acc rooted t,
@@ -257,6 +265,59 @@ Theorem encode_twice_stable : forall acc rooted t,
   = encode acc (r_rooted (encode acc rooted t)) (r_tree (encode acc rooted t)).
 Proof. exact encode_twice_stable_l. Qed.
 Print Assumptions encode_twice_stable.
+
+
+(* ---- the flags suppress_unifurcations (su) and collapse_unrooted_basal_bifurcation (cb) ------------ *)
+(* encode_f su cb models encode_bipartitions(suppress_unifurcations=su,
+   collapse_unrooted_basal_bifurcation=cb); encode_f true true is the function above. *)
+Theorem encode_flags_default : forall acc rooted t, encode_f true true acc rooted t = encode acc rooted t.
+Proof. exact encode_f_default. Qed.
+Print Assumptions encode_flags_default.
+
+Theorem leafset_mask_exact_flags : forall su cb acc rooted t,
+  (forall x, In (Some x) (leaf_taxa t) -> 0 <= acc x) ->
+  Forall2 (fun n e =>
+             fst e = t_id n /\
+             forall i, 0 <= i ->
+               (Z.testbit (fst (snd e)) i = true <-> exists x, In (Some x) (leaf_taxa n) /\ acc x = i))
+          (postorder (r_tree (encode_f su cb acc rooted t))) (r_edges (encode_f su cb acc rooted t))
+  /\ r_enc (encode_f su cb acc rooted t) = map snd (r_edges (encode_f su cb acc rooted t)).
+Proof. exact leafset_mask_exact_f_l. Qed.
+Print Assumptions leafset_mask_exact_flags.
+
+Theorem split_mask_rooted_flags : forall su cb acc rooted t, is_true rooted = true ->
+  Forall (fun e => snd (snd e) = fst (snd e)) (r_edges (encode_f su cb acc rooted t))
+  /\ r_rooted (encode_f su cb acc rooted t) = rooted.
+Proof. exact split_mask_rooted_f_l. Qed.
+Print Assumptions split_mask_rooted_flags.
+
+Theorem split_mask_unrooted_flags : forall su cb acc rooted t, is_true rooted = false ->
+  (cmask acc t = 0 -> Forall (fun e => snd (snd e) = 0) (r_edges (encode_f su cb acc rooted t))) /\
+  (forall low, 0 <= low -> Z.testbit (cmask acc t) low = true ->
+     (forall j, 0 <= j < low -> Z.testbit (cmask acc t) j = false) ->
+     Forall (fun e =>
+               snd (snd e) = (if Z.testbit (fst (snd e)) low
+                              then Z.land (Z.lnot (fst (snd e))) (cmask acc t) else fst (snd e)) /\
+               Z.testbit (snd (snd e)) low = false /\
+               Z.land (snd (snd e)) (cmask acc t) = snd (snd e))
+            (r_edges (encode_f su cb acc rooted t))).
+Proof. exact split_mask_unrooted_f_l. Qed.
+Print Assumptions split_mask_unrooted_flags.
+
+(* structure under the flags: suppression only with su, collapse only with cb (and not rooted, seed
+   bifurcation); the flag changes only when the collapse happened; leaf taxa keep their order;
+   with both flags off the tree is untouched *)
+Theorem encode_structure_flags : forall su cb acc rooted t,
+  r_tree (encode_f su cb acc rooted t)
+    = (if su then suppress else (fun u => u))
+        (if cb && negb (is_true rooted) && (nkids t =? 2) then fst (collapse_basal t) else t) /\
+  r_rooted (encode_f su cb acc rooted t)
+    = (if cb && negb (is_true rooted) && (nkids t =? 2) && snd (collapse_basal t) then Some false else rooted) /\
+  leaf_taxa (r_tree (encode_f su cb acc rooted t)) = leaf_taxa t /\
+  (su = true -> unif_free (r_tree (encode_f su cb acc rooted t)) = true) /\
+  (su = false -> cb = false -> r_tree (encode_f su cb acc rooted t) = t).
+Proof. exact encode_structure_f_l. Qed.
+Print Assumptions encode_structure_flags.
 
 (* ============================== C. topology =============================================== *)
 
@@ -335,6 +396,18 @@ Theorem splits_iff_topology_unrooted : forall acc,
 Proof. exact splits_iff_topology_unrooted_l. Qed.
 Print Assumptions splits_iff_topology_unrooted.
 
+(* the same without the hypothesis on the seeds: compare the unrooted canonical forms of the
+   unifurcation-free trees (single-leaf trees and seeds with one child included) *)
+Theorem splits_iff_topology_unrooted_full : forall acc,
+  (forall x, 0 <= acc x) -> (forall x y, acc x = acc y -> x = y) ->
+  forall r1 r2 t1 t2,
+  is_true r1 = false -> is_true r2 = false ->
+  leaves_ok t1 = true -> leaves_ok t2 = true -> cmask acc t1 = cmask acc t2 ->
+  (set_eq (enc_splits (encode acc r1 t1)) (enc_splits (encode acc r2 t2))
+   <-> ucanon acc (suppress t1) = ucanon acc (suppress t2)).
+Proof. exact splits_iff_topology_unrooted_full_l. Qed.
+Print Assumptions splits_iff_topology_unrooted_full.
+
 (* ... and the unrooted canonical form is the same for any two trees related by child permutation,
    unifurcation insertion and moving the seed ("whatever ... the position of the seed node") *)
 Theorem ucanon_invariant_under_moves : forall acc,
@@ -365,27 +438,96 @@ Theorem from_splits_order_irrelevant : forall acc,
 Proof. exact from_splits_order_irrelevant_l. Qed.
 Print Assumptions from_splits_order_irrelevant.
 
-(* from_splits_rebuilds (rooted): the namespace's members are the tree's leaf taxa (vacated accession
-   indices allowed); the split bitmasks of the rooted encoding, handed over in ANY order, rebuild a
-   tree of the same topology.
-   FULL STATEMENT also for unrooted encodings (not proved):
-     is_true rooted = false -> ... Permutation l (enc_splits (encode acc rooted t)) ->
-     set_eq (enc_splits (encode acc (Some false) (to_tree (from_splits ns count rooted l))))
-            (enc_splits (encode acc rooted t))
-   and for namespaces with members that are not on the tree (they stay children of the root).
-   Both are covered by the correspondence run and its oracle only. *)
-Theorem from_splits_rebuilds_rooted_partial : forall acc,
+(* from_splits_rebuilds.  ns may be LARGER than the tree's leaf set: `extras` are the members that are
+   not on the tree; vacated accession indices allowed (count only exceeds every index).
+   Rooted encoding, any order: the rebuilt tree is the tree as one clade next to the extra members,
+   which are leaves below the root (t_ext t extras = T [t; extra leaves]; for no extra member this is
+   the tree below a unifurcation, i.e. canon = canon t). *)
+Theorem from_splits_rebuilds_rooted : forall acc,
   (forall x, 0 <= acc x) -> (forall x y, acc x = acc y -> x = y) ->
   forall ns, (NoDup (map fst ns) /\ Forall (fun p => 0 <= fst p /\ snd p = acc (fst p)) ns) ->
   (2 <= length ns)%nat ->
-  forall count rooted t l,
-  is_true rooted = true -> leaves_ok t = true ->
-  Permutation.Permutation (leaf_taxa t) (map (fun p => Some (fst p)) ns) ->
-  (forall p, In p ns -> snd p < count) ->
+  forall count, (forall p, In p ns -> snd p < count) ->
+  forall t extras, leaves_ok t = true ->
+  Permutation.Permutation (leaf_taxa t ++ map Some extras) (map (fun p => Some (fst p)) ns) ->
+  forall rooted l, is_true rooted = true ->
   Permutation.Permutation l (enc_splits (encode acc rooted t)) ->
-  canon acc (to_tree (from_splits ns count rooted l)) = canon acc t.
-Proof. exact from_splits_rebuilds_rooted_l. Qed.
-Print Assumptions from_splits_rebuilds_rooted_partial.
+  canon acc (to_tree (from_splits ns count rooted l))
+  = canon acc (T 0 None None None (t :: map (fun x => T 0 (Some x) None None []) extras)).
+Proof. exact from_splits_rebuilds_rooted_ext_l. Qed.
+Print Assumptions from_splits_rebuilds_rooted.
+
+(* ... restricted to the tree's own taxa its clades are exactly the tree's clades *)
+Theorem from_splits_rooted_restriction : forall acc,
+  (forall x, 0 <= acc x) -> (forall x y, acc x = acc y -> x = y) ->
+  forall ns, (NoDup (map fst ns) /\ Forall (fun p => 0 <= fst p /\ snd p = acc (fst p)) ns) ->
+  (2 <= length ns)%nat ->
+  forall count, (forall p, In p ns -> snd p < count) ->
+  forall t extras, leaves_ok t = true ->
+  Permutation.Permutation (leaf_taxa t ++ map Some extras) (map (fun p => Some (fst p)) ns) ->
+  forall rooted l, is_true rooted = true ->
+  Permutation.Permutation l (enc_splits (encode acc rooted t)) ->
+  forall y, y <> 0 ->
+  (In y (map (fun m => Z.land m (cmask acc t)) (clades acc (to_tree (from_splits ns count rooted l))))
+   <-> In y (clades acc t)).
+Proof. exact from_splits_rooted_restriction_l. Qed.
+Print Assumptions from_splits_rooted_restriction.
+
+(* Unrooted encoding (the `1 & m` de-normalisation never fires on an encoding: no split contains bit 0;
+   splits are inside the root's mask).  Namespace = the tree's leaf taxa: the rebuilt tree has the
+   tree's unrooted topology. *)
+Theorem from_splits_rebuilds_unrooted : forall acc,
+  (forall x, 0 <= acc x) -> (forall x y, acc x = acc y -> x = y) ->
+  forall ns, (NoDup (map fst ns) /\ Forall (fun p => 0 <= fst p /\ snd p = acc (fst p)) ns) ->
+  (2 <= length ns)%nat ->
+  forall count, (forall p, In p ns -> snd p < count) ->
+  forall t rooted l, leaves_ok t = true ->
+  Permutation.Permutation (leaf_taxa t) (map (fun p => Some (fst p)) ns) ->
+  is_true rooted = false -> Permutation.Permutation l (enc_splits (encode acc rooted t)) ->
+  ucanon acc (suppress (to_tree (from_splits ns count rooted l))) = ucanon acc (suppress t).
+Proof. exact from_splits_rebuilds_unrooted_l. Qed.
+Print Assumptions from_splits_rebuilds_unrooted.
+
+(* Unrooted encoding, larger namespace: restricted to the tree's own taxa (every clade intersected with
+   the tree's mask and normalised within it) the rebuilt tree has exactly the tree's split set, hence
+   by splits_iff_topology_unrooted_full the tree's unrooted topology ... *)
+Theorem from_splits_unrooted_restriction : forall acc,
+  (forall x, 0 <= acc x) -> (forall x y, acc x = acc y -> x = y) ->
+  forall ns, (NoDup (map fst ns) /\ Forall (fun p => 0 <= fst p /\ snd p = acc (fst p)) ns) ->
+  (2 <= length ns)%nat ->
+  forall count, (forall p, In p ns -> snd p < count) ->
+  forall t extras, leaves_ok t = true ->
+  Permutation.Permutation (leaf_taxa t ++ map Some extras) (map (fun p => Some (fst p)) ns) ->
+  forall rooted l, is_true rooted = false ->
+  Permutation.Permutation l (enc_splits (encode acc rooted t)) ->
+  set_eq (map (fun m => py_normalize_bitmask (Z.land m (cmask acc t)) (cmask acc t)
+                          (py_least_significant_set_bit (cmask acc t)))
+              (clades acc (to_tree (from_splits ns count rooted l))))
+         (map (fun m => py_normalize_bitmask m (cmask acc t) (py_least_significant_set_bit (cmask acc t)))
+              (clades acc t)).
+Proof. exact from_splits_unrooted_restriction_l. Qed.
+Print Assumptions from_splits_unrooted_restriction.
+
+(* ... and (rooted or not) the extra members hang off the root as leaves: the bit of an extra member
+   occurs in no clade of the rebuilt tree except its own leaf and the root *)
+Theorem from_splits_extras_at_root : forall acc,
+  (forall x, 0 <= acc x) -> (forall x y, acc x = acc y -> x = y) ->
+  forall ns, (NoDup (map fst ns) /\ Forall (fun p => 0 <= fst p /\ snd p = acc (fst p)) ns) ->
+  (2 <= length ns)%nat ->
+  forall count, (forall p, In p ns -> snd p < count) ->
+  forall t extras, leaves_ok t = true ->
+  Permutation.Permutation (leaf_taxa t ++ map Some extras) (map (fun p => Some (fst p)) ns) ->
+  forall rooted l x m, Permutation.Permutation l (enc_splits (encode acc rooted t)) ->
+  In x extras -> In m (clades acc (to_tree (from_splits ns count rooted l))) ->
+  Z.testbit m (acc x) = true ->
+  m = 2 ^ acc x \/ m = fold_right Z.lor 0 (map (fun p => 2 ^ snd p) ns).
+Proof.
+  intros acc Hnn Hinj ns Hns Hlen count Hcount t extras LK PT rooted l x m PL.
+  destruct (is_true rooted) eqn:HR.
+  - exact (extras_at_root_rooted_l acc Hnn Hinj ns Hns Hlen count Hcount t extras LK PT rooted l x m HR PL).
+  - exact (extras_at_root_unrooted_l acc Hnn Hinj ns Hns Hlen count Hcount t extras LK PT rooted l x m HR PL).
+Qed.
+Print Assumptions from_splits_extras_at_root.
 
 (* greedy insertion of ONE split into any well-formed working tree: masks stay consistent, no clade is
    lost, at most the split itself is gained, the leaves are kept, and the split IS gained whenever it
@@ -402,19 +544,30 @@ Theorem insert_split_spec : forall s k, s <> 0 ->
 Proof. exact insert_ok. Qed.
 Print Assumptions insert_split_spec.
 
-(* Tree.is_compatible_with_bipartition on a rooted encoded tree = compatible with every clade
-   (the `bipartition in self.bipartition_encoding` shortcut is sound because the clades of one tree
-   are pairwise disjoint-or-nested).
-   FULL STATEMENT also for unrooted trees (4-way split compatibility against every normalised split):
-   not proved; covered by the correspondence probes and the oracle. *)
-Theorem tree_compatible_rooted_spec_partial : forall acc rooted t s,
+(* tree_compatible_spec.  Tree.is_compatible_with_bipartition on an encoded tree = compatible with every
+   bipartition of the encoding, in the set-theoretic sense (the `bipartition in self.bipartition_encoding`
+   shortcut is sound because the bipartitions of one tree are pairwise compatible).
+   Rooted: clades, disjoint or nested.  Unrooted: splits (4 cases), for a bipartition built against the
+   same tree mask (inside it, lowest taxon bit clear - what Bipartition(...) guarantees). *)
+Theorem tree_compatible_rooted_spec : forall acc rooted t s,
   (forall x, 0 <= acc x) -> (forall x y, acc x = acc y -> x = y) ->
   is_true rooted = true -> leaves_ok t = true ->
   Z.land (cmask acc t) s = s ->
   (tree_is_compatible_with (enc_splits (encode acc rooted t)) (cmask acc t) s = true <->
    forall b, In b (enc_splits (encode acc rooted t)) -> (mdisjoint b s \/ msubset b s \/ msubset s b)).
 Proof. exact tree_compatible_rooted_spec_l. Qed.
-Print Assumptions tree_compatible_rooted_spec_partial.
+Print Assumptions tree_compatible_rooted_spec.
+
+Theorem tree_compatible_unrooted_spec : forall acc,
+  (forall x, 0 <= acc x) -> (forall x y, acc x = acc y -> x = y) ->
+  forall rooted t s, is_true rooted = false -> leaves_ok t = true ->
+  Z.land (cmask acc t) s = s ->
+  Z.testbit s (Z.log2 (py_least_significant_set_bit (cmask acc t))) = false ->
+  (tree_is_compatible_with (enc_splits (encode acc rooted t)) (cmask acc t) s = true <->
+   forall b, In b (enc_splits (encode acc rooted t)) ->
+     (mdisjoint b s \/ msubset b s \/ msubset s b \/ Z.lor b s = cmask acc t)).
+Proof. exact tree_compatible_unrooted_spec_l. Qed.
+Print Assumptions tree_compatible_unrooted_spec.
 
 (* the clades of one tree with pairwise distinct leaf taxa are pairwise disjoint-or-nested *)
 Theorem tree_clades_laminar : forall acc t,
